@@ -232,6 +232,59 @@ theorem declBinTyped_ok_iff (word : Nat) (hw : word = 4 ∨ word = 8) (k : Kind)
 example : declBinTyped false 4 .int32 .add 2147483647 1 = .overflow ∧ declBinTyped false 4 .uint8 .sub 255 5 = .ok 250
     ∧ declBinTyped false 4 .uint8 .add 256 0 = .cannot ∧ declBinTyped false 4 .int32 .rem 7 0 = .divzero := by decide
 
+theorem checkBinary_untyped (word : Nat) (op : BOp) (x y : Int) :
+    checkBinary false word .untypedInt op x y =
+      if op.isDiv && decide (y = 0) then .divzero else .ok (exactBin op x y) := by
+  unfold checkBinary
+  rw [const_int_exact op x y]
+  by_cases hd : (op.isDiv && decide (y = 0)) = true
+  · simp [hd]
+  · simp [hd, Kind.typed]
+
+/-- `const c K = x op y` with untyped operands: accepted exactly when the exact value is in K's range -/
+theorem declBinUntyped_ok_iff (word : Nat) (hw : word = 4 ∨ word = 8) (k : Kind) (op : BOp) (x y v : Int) :
+    declBinUntyped false word k op x y = .ok v ↔
+      ¬(op.isDiv = true ∧ y = 0) ∧ v = exactBin op x y ∧ kindRange word k v := by
+  unfold declBinUntyped
+  rw [checkBinary_untyped]
+  have hr := representable_iff_range word hw (exactBin op x y) k
+  by_cases hd : (op.isDiv && decide (y = 0)) = true
+  · have hd' : op.isDiv = true ∧ y = 0 := by simpa using hd
+    simp [hd', Verdict.bind]
+  · have hd' : ¬(op.isDiv = true ∧ y = 0) := by simpa using hd
+    simp only [hd, Bool.false_eq_true, if_false, bind_ok, checkAssign]
+    by_cases hrep : representableConst word (exactBin op x y) k = true
+    · have := hr.mp hrep
+      simp [hrep, hd']
+      constructor
+      · intro e; subst e; exact ⟨rfl, this⟩
+      · intro e; exact e.1.symm
+    · have hn : ¬ kindRange word k (exactBin op x y) := fun e => hrep (hr.mpr e)
+      simp [hrep, hd']
+      intro e; subst e; exact hn
+
+/-- Untyped constant arithmetic is exact and unbounded: in `const c K = (x op1 y) op2 z` only the
+final value is held against K's range, however large the intermediate result is. -/
+theorem declBin2Untyped_ok_iff (word : Nat) (hw : word = 4 ∨ word = 8) (k : Kind) (op1 op2 : BOp) (x y z v : Int) :
+    declBin2Untyped false word k op1 op2 x y z = .ok v ↔
+      ¬(op1.isDiv = true ∧ y = 0) ∧ ¬(op2.isDiv = true ∧ z = 0) ∧
+      v = exactBin op2 (exactBin op1 x y) z ∧ kindRange word k v := by
+  unfold declBin2Untyped
+  rw [checkBinary_untyped]
+  by_cases hd : (op1.isDiv && decide (y = 0)) = true
+  · have hd' : op1.isDiv = true ∧ y = 0 := by simpa using hd
+    simp [hd', Verdict.bind]
+  · have hd' : ¬(op1.isDiv = true ∧ y = 0) := by simpa using hd
+    simp only [hd, Bool.false_eq_true, if_false, bind_ok]
+    have := declBinUntyped_ok_iff word hw k op2 (exactBin op1 x y) z v
+    unfold declBinUntyped at this
+    rw [this]
+    simp [hd']
+
+/-- … whereas a typed intermediate that leaves the range is rejected even if the final value fits -/
+example : declBin2Untyped false 4 .uint8 .add .sub 255 255 300 = .ok 210
+    ∧ declBin2Typed false 4 .uint8 .add .sub 255 255 200 = .overflow := by decide
+
 /-! ## 5. the bridge: folded constant = run-time evaluation (Base/GoInt.lean), every width, signed and unsigned -/
 
 theorem dec_enc (t : Go.ITy) (ht : 0 < t.bits) (v : Int) (h : inRange t v) : dec t (enc t v) = v :=
